@@ -22,6 +22,7 @@
 -/
 import Mcp.Model.Pending
 import Mcp.Gen.PendingFacts
+import Mcp.Gen.PendingClients
 import Mcp.Props.C02Wire
 namespace Mcp.Props.C01
 open Mcp.Str Mcp.Ids Mcp.Pending
@@ -632,7 +633,9 @@ private theorem keyInj_of_good (k : KeyKind) (hk : goodKind k) : KeyInj k := by
 
 /-- **Ids are unique**: whatever the schedule, the calls in flight carry pairwise different ids and pairwise
     different table keys (the counter never repeats, decimal rendering is injective), so a map insert never
-    overwrites another call's channel. -/
+    overwrites another call's channel. The model numbers every request from ONE counter per client (`St.next`): that
+    every operation of the real clients draws its id from the client's own counter — none leaves the id to a
+    transport-side fallback that counts separately — is the regenerated, decided fact `C01_fact_one_counter`. -/
 theorem C01_ids_unique (k : KeyKind) (hk : goodKind k) (start : Nat) (evs : List Ev) (hh : ∀ e ∈ evs, e.honest = true)
     (s : St) (hr : run k true (init start) evs = some s) (hb : s.next ≤ 2 ^ 53) :
     (s.pending.map Entry.call).Nodup ∧
@@ -815,6 +818,15 @@ theorem C01_fact_tables :
           [t!"stdioClientTransport.handleErrorResponse", t!"stdioClientTransport.handleResponse"]),
         (t!"stdio_server.responses", t!"uint64OfInt64", [t!"parseRequestID"], true, [t!"stdioServerInternal.HandleResponse"]),
         (t!"streamable_server.pendingRequests", t!"idKey", [t!"idKey"], true, [t!"responseManager.DeliverResponse"]) ] := by decide
+
+/-- **One id counter per client**: every method of `Client` and `StdioClient` that issues a request through its transport
+    builds it with an id taken from the client's own counter (`c.requestID.Add(1)`) — so the transport-side fallback
+    (`if req.ID == nil { req.ID = t.requestID.Add(1) }` in `stdioClientTransport.sendRequest`, a second counter starting at 1
+    that feeds the same pending table) is never reached from the client's operations. Two counters would hand the same
+    number to two calls in flight: the second registration overwrites the first call's channel. -/
+theorem C01_fact_one_counter :
+    Mcp.Gen.pdClientOps.all (fun o => o.idSource = t!"clientCounter") = true ∧ 14 ≤ Mcp.Gen.pdClientOps.length ∧
+    Mcp.Gen.pdIdFallbacks = [t!"stdioClientTransport.sendRequest"] := by decide
 
 /-- In every issuing function the pending entry is inserted before the request is put on the wire (client tables: before
     `encoder.Encode` / the POST; server tables: before the frame is queued or written): an answer cannot be dispatched
